@@ -63,6 +63,7 @@ def editOf (s : String) : Option Edit :=
   | ["setsni", b] => (ofHex b).map .setSni
   | ["setsuites", l] => (natList l).map .setSuites
   | ["setsid", b] => (ofHex b).map .setSid
+  | ["badbinder", i] => i.toNat?.map .badBinder
   | ["setticket", b] => if b == "none" then some (.setTicket none) else (ofHex b).map (fun x => .setTicket (some x))
   | _ => none
 
@@ -94,6 +95,7 @@ def alertName : Alert → String
   | .illegal_parameter => "illegal_parameter"
   | .handshake_failure => "handshake_failure"
   | .unexpected_message => "unexpected_message"
+  | .bad_record_mac => "bad_record_mac"
 
 def endName : EndState → String
   | .done => "done"
